@@ -65,6 +65,42 @@ def gDoc (fs : JFields) : Doc := addLead (gLead fs) (gFields fs)
 
 /-! ### the fragment -/
 
+/-- reader-safe scalar of the full syntax: an ordinary scalar, a variable `@name` or an interpolated expression
+`@[ … ]` (both parsers read them as ONE unquoted scalar: `Scal.ValidX`, C07_slice_faithful_x) that, unquoted, does not
+begin with `?` (the reader takes a leading `?` for the operator `?=`: `C07_known_question_scalar`,
+`C02_question_scalar_paths_differ`) -/
+def SafeScalX (s : Scal) : Prop := s.ValidX ∧ (s.quoted = false → ∀ c r, s.bytes = c :: r → c ≠ 63)
+
+theorem SafeScal.toX {s : Scal} (h : SafeScal s) : SafeScalX s := ⟨.inl h.1, h.2⟩
+
+/-- a reader-safe scalar of the full syntax lexes back to itself in front of `after` (extended layout model of C07) -/
+theorem scalValidX (s : Scal) (after : Bytes) (hs : SafeScalX s) (ha : s.quoted = false → TextReader.StartsBoundary after) :
+    (TextReader.Lexeme.scalar s.quoted s.bytes).ValidX after := by
+  obtain ⟨hv, h63⟩ := hs
+  rcases hv with hv | hv | hv
+  · exact (scalValid s after ⟨hv, h63⟩ ha).toX
+  · obtain ⟨hq, r, hb, hne, hall⟩ := hv
+    rw [hq]
+    simp only [TextReader.Lexeme.ValidX]
+    cases r with
+    | nil => exact absurd rfl hne
+    | cons d r' =>
+      exact Or.inr (Or.inl ⟨⟨d, r', hb, fun c hc => by rw [← isBoundary_eq]; exact hall c hc⟩, ha hq⟩)
+  · obtain ⟨hq, body, hb, hall⟩ := hv
+    rw [hq]
+    simp only [TextReader.Lexeme.ValidX]
+    exact Or.inr (Or.inr ⟨body, hb, fun c hc => by simpa using hall c hc⟩)
+
+/-- the text of such a scalar does not begin with `=` -/
+theorem scal_headX (s : Scal) (hs : SafeScalX s) (x : Bytes) : ∃ c r, s.text ++ x = c :: r ∧ c ≠ 61 := by
+  obtain ⟨hv, h63⟩ := hs
+  rcases hv with hv | hv | hv
+  · exact scal_head s ⟨hv, h63⟩ x
+  · obtain ⟨hq, r, hb, _, _⟩ := hv
+    exact ⟨64, r ++ x, by simp [Scal.text, hq, hb], by decide⟩
+  · obtain ⟨hq, body, hb, _⟩ := hv
+    exact ⟨64, 91 :: (body ++ [93]) ++ x, by simp [Scal.text, hq, hb], by decide⟩
+
 /-- an object, possibly behind ghost `{}` -/
 def XObj : JVal → Prop
   | .obj .. => True
@@ -72,32 +108,29 @@ def XObj : JVal → Prop
   | _ => False
 
 mutual
-/-- the fragment of the full-syntax end-to-end theorems: reader-safe scalars (no `@variable`, no leading
-`?`: the reader's lexer treats them differently, C07), keys quoted or not, every operator, the implicit
+/-- the fragment of the full-syntax end-to-end theorems: reader-safe scalars (variables `@name` and interpolated
+expressions `@[ … ]` included; no leading `?`), keys quoted or not, every operator, the implicit
 `=`, ghost `{}` in key position; no mixed containers, no parameter blocks -/
 def XPlainV : JVal → Prop
-  | .scal _ s => SafeScal s
+  | .scal _ s => SafeScalX s
   | .empty _ _ => True
-  | .obj _ _ k _ _ v rest _ => SafeScal k ∧ XPlainV v ∧ XPlainF rest
-  | .arrS _ _ s0 rest _ => SafeScal s0 ∧ XPlainVs rest
+  | .obj _ _ k _ _ v rest _ => SafeScalX k ∧ XPlainV v ∧ XPlainF rest
+  | .arrS _ _ s0 rest _ => SafeScalX s0 ∧ XPlainVs rest
   | .arrC _ first rest _ => XPlainV first ∧ XPlainVs rest
   | .ghostIn _ _ _ v => XObj v ∧ XPlainV v
   | .mixed .. => False
 def XPlainF : JFields → Prop
   | .nil => True
-  | .cons _ k _ _ v rest => SafeScal k ∧ XPlainV v ∧ XPlainF rest
-  | .consImp _ k v rest => (SafeScal k ∧ v.isBraced) ∧ XPlainV v ∧ XPlainF rest
+  | .cons _ k _ _ v rest => SafeScalX k ∧ XPlainV v ∧ XPlainF rest
+  | .consImp _ k v rest => (SafeScalX k ∧ v.isBraced) ∧ XPlainV v ∧ XPlainF rest
   | .ghost _ _ rest => XPlainF rest
-  | .consHdr _ k _ _ _ h body rest => SafeScal k ∧ h.quoted = false ∧ SafeScal h ∧ XPlainV body ∧ XPlainF rest
+  | .consHdr _ k _ _ _ h body rest => SafeScalX k ∧ h.quoted = false ∧ SafeScal h ∧ XPlainV body ∧ XPlainF rest
   | .paramVal .. => False
   | .paramObj .. => False
 def XPlainVs : JVals → Prop
   | .nil => True
   | .cons v rest => XPlainV v ∧ XPlainVs rest
 end
-
-/-- at the top level ghosts need a field to stand in front of -/
-def XRoot (fs : JFields) : Prop := gFields fs ≠ [] ∨ gLead fs = 0
 
 /-! ### sizes and tapes: ghosts, the implicit `=` and quotes around keys leave no trace on the tape -/
 
@@ -635,17 +668,37 @@ theorem gitemsMs : ∀ (vs : JVals), XPlainVs vs → itemToks (TextReader.itemsM
       simp only [dMs, TextReader.itemsM, gNodes, lexNodes, itemToks_append, gitemsV v h.1, gitemsMs rest h.2]
 end
 
-/-- the reader tokens of a document: its leading ghosts, then its fields -/
-theorem gitemsDoc (fs : JFields) (hp : XPlainF fs) (hr : XRoot fs) :
-    itemToks (TextReader.itemsM (dM fs)) = lexemes (gDoc fs) := by
-  rw [gitemsM fs hp]
-  simp only [lexemes, gDoc]
+/-- a document that consists of ghost `{}` only: the reader path skips them and ends as on the empty input -/
+theorem deStream_ghosts (enc : TextDe.Enc) (ty : TextDe.Ty) (n : Nat) :
+    TextDe.deStream enc ty (ghostToks n) = TextDe.deStream enc ty [] := by
+  have hlen : (ghostToks n).length + 1 = n + (n + 1) := by rw [TextDe.ghostToks_len]; omega
+  have key : ∀ {σ κ : Type} (K : σ → TextDe.RTok → TextDe.R κ)
+      (V : σ → κ → TextDe.RTok → TextDe.Op → List TextDe.RTok → TextDe.R (σ × List TextDe.RTok)) (st : σ),
+      TextDe.sMapFold true K V ((ghostToks n).length + 1) (ghostToks n) st = TextDe.sMapFold true K V ([] : List TextDe.RTok).length.succ [] st := by
+    intro σ κ K V st
+    rw [hlen]
+    have := TextDe.sMapFold_ghosts true K V (n + 1) [] st n
+    rw [List.append_nil] at this
+    rw [this, TextDe.sMapFold_end true K V n [] [] st (Or.inr ⟨rfl, rfl, rfl⟩)]
+    exact (TextDe.sMapFold_end true K V 0 [] [] st (Or.inr ⟨rfl, rfl, rfl⟩)).symm
+  cases ty <;> simp only [TextDe.deStream, key, List.length_nil]
+
+/-- the reader path on the tokens of a document (its leading ghosts, then its fields): the value of `gDoc fs`; a
+document that consists of ghosts only has the value of the empty document -/
+theorem deStream_gdoc (enc : TextDe.Enc) (ty : TextDe.Ty) (fs : JFields) (hroot : Ty.isRoot ty = true)
+    (hwf : wfFields (gDoc fs) = true) (hfit : Fits enc ty (.obj (gDoc fs))) :
+    TextDe.deStream enc ty (ghostToks (gLead fs) ++ lexFields (gFields fs)) = valueOf enc ty (gDoc fs) := by
+  have h := TextDe.deStream_eq_valueOf enc ty (gDoc fs) hroot hwf hfit
+  simp only [gDoc, lexemes] at h hwf hfit ⊢
   cases hg : gFields fs with
   | nil =>
-    rcases hr with h | h
-    · exact absurd hg h
-    · simp [h, ghostToks, addLead, lexFields]
-  | cons f r => rw [lexFields_addLead]
+    rw [hg] at h
+    simp only [addLead, lexFields, List.append_nil] at h ⊢
+    rw [deStream_ghosts]; exact h
+  | cons f r =>
+    rw [hg] at h
+    rw [lexFields_addLead] at h
+    exact h
 
 /-! ### a valid C01 layout of the fragment is a valid reader-safe C07 layout -/
 
@@ -656,7 +709,7 @@ theorem gvalue_head (v : JVal) (after : Bytes) (hp : XPlainV v) (hv : JValidV v 
   | scal g s =>
     simp only [XPlainV] at hp; simp only [JValidV] at hv
     simp only [jrenderV, List.append_assoc]
-    exact gapped_head g hv.1 _ (scal_head s hp x)
+    exact gapped_head g hv.1 _ (scal_headX s hp x)
   | empty g gc =>
     simp only [JValidV] at hv
     simp only [jrenderV, List.append_assoc, List.cons_append]
@@ -680,21 +733,21 @@ theorem gvalue_head (v : JVal) (after : Bytes) (hp : XPlainV v) (hv : JValidV v 
   | mixed g g0 k g1 o v' rest gm m0 elems gc => simp [XPlainV] at hp
 
 mutual
-theorem gvalidV : ∀ (v : JVal) (after : Bytes), XPlainV v → JValidV v after → TextReader.ValidV (dV v) after
+theorem gvalidV : ∀ (v : JVal) (after : Bytes), XPlainV v → JValidV v after → TextReader.ValidVX (dV v) after
   | .scal g s, after, hp, hv => by
       simp only [XPlainV] at hp; simp only [JValidV] at hv
-      simp only [dV, TextReader.ValidV]
-      exact ⟨gap_of_blank hv.1, scalValid s after hp (fun hq => sb_of _ (hv.2.2 hq))⟩
+      simp only [dV, TextReader.ValidVX]
+      exact ⟨gap_of_blank hv.1, scalValidX s after hp (fun hq => sb_of _ (hv.2.2 hq))⟩
   | .empty g gc, after, _, hv => by
       simp only [JValidV] at hv
-      simp only [dV, TextReader.ValidV, TextReader.ValidM]
+      simp only [dV, TextReader.ValidVX, TextReader.ValidMX]
       exact ⟨gap_of_blank hv.1, gap_of_blank hv.2, trivial⟩
   | .obj g g0 k g1 o v rest gc, after, hp, hv => by
       simp only [XPlainV] at hp; simp only [JValidV] at hv
       obtain ⟨hg, hg0, hg1, hgc, _, hkb, hvv, hvr⟩ := hv
-      simp only [dV, TextReader.ValidV, TextReader.ValidM, grenderV v hp.2.1, grenderM rest hp.2.2, opText_trOp]
+      simp only [dV, TextReader.ValidVX, TextReader.ValidMX, grenderV v hp.2.1, grenderM rest hp.2.2, opText_trOp]
       refine ⟨gap_of_blank hg, gap_of_blank hgc, gap_of_blank hg0, gap_of_blank hg1, ?_, ?_, ?_, ?_⟩
-      · refine scalValid k _ hp.1 (fun hq => ?_)
+      · refine scalValidX k _ hp.1 (fun hq => ?_)
         have := sb_append (g1 ++ o.text) (jrenderV v ++ (jrenderF rest ++ (gc ++ 125 :: after)))
           (by simp [opText_ne]) (hkb hq)
         simpa [List.append_assoc] using this
@@ -704,31 +757,31 @@ theorem gvalidV : ∀ (v : JVal) (after : Bytes), XPlainV v → JValidV v after 
   | .arrS g g0 s0 rest gc, after, hp, hv => by
       simp only [XPlainV] at hp; simp only [JValidV] at hv
       obtain ⟨hg, hg0, hgc, _, hsb, _, hvr⟩ := hv
-      simp only [dV, TextReader.ValidV, TextReader.ValidM, grenderMs rest hp.2]
-      exact ⟨gap_of_blank hg, gap_of_blank hgc, ⟨gap_of_blank hg0, scalValid s0 _ hp.1 (fun hq => sb_of _ (hsb hq))⟩,
+      simp only [dV, TextReader.ValidVX, TextReader.ValidMX, grenderMs rest hp.2]
+      exact ⟨gap_of_blank hg, gap_of_blank hgc, ⟨gap_of_blank hg0, scalValidX s0 _ hp.1 (fun hq => sb_of _ (hsb hq))⟩,
         gvalidMs rest _ hp.2 hvr⟩
   | .arrC g first rest gc, after, hp, hv => by
       simp only [XPlainV] at hp; simp only [JValidV] at hv
       obtain ⟨hg, hgc, _, hvf, hvr⟩ := hv
-      simp only [dV, TextReader.ValidV, TextReader.ValidM, grenderMs rest hp.2]
+      simp only [dV, TextReader.ValidVX, TextReader.ValidMX, grenderMs rest hp.2]
       exact ⟨gap_of_blank hg, gap_of_blank hgc, gvalidV first _ hp.1 hvf, gvalidMs rest _ hp.2 hvr⟩
   | .ghostIn g b1 b2 v, after, hp, hv => by
       simp only [XPlainV] at hp; simp only [JValidV] at hv
       obtain ⟨hg, hb1, hb2, hbr, _, hvv⟩ := hv
       have ih := gvalidV v after hp.2 hvv
       rw [dV_braced v hp.2 hbr] at ih
-      simp only [TextReader.ValidV] at ih
-      simp only [dV, TextReader.ValidV, TextReader.ValidM]
+      simp only [TextReader.ValidVX] at ih
+      simp only [dV, TextReader.ValidVX, TextReader.ValidMX]
       exact ⟨gap_of_blank hg, ih.2.1, ⟨gap_of_blank hb1, gap_of_blank hb2, trivial⟩, ih.2.2⟩
   | .mixed .., _, hp, _ => by simp [XPlainV] at hp
-theorem gvalidM : ∀ (fs : JFields) (after : Bytes), XPlainF fs → JValidF fs after → TextReader.ValidM (dM fs) after
-  | .nil, _, _, _ => by simp [dM, TextReader.ValidM]
+theorem gvalidM : ∀ (fs : JFields) (after : Bytes), XPlainF fs → JValidF fs after → TextReader.ValidMX (dM fs) after
+  | .nil, _, _, _ => by simp [dM, TextReader.ValidMX]
   | .cons g0 k g1 o v rest, after, hp, hv => by
       simp only [XPlainF] at hp; simp only [JValidF] at hv
       obtain ⟨hg0, hg1, _, hkb, hvv, hvr⟩ := hv
-      simp only [dM, TextReader.ValidM, grenderV v hp.2.1, grenderM rest hp.2.2, opText_trOp]
+      simp only [dM, TextReader.ValidMX, grenderV v hp.2.1, grenderM rest hp.2.2, opText_trOp]
       refine ⟨gap_of_blank hg0, gap_of_blank hg1, ?_, ?_, ?_, ?_⟩
-      · refine scalValid k _ hp.1 (fun hq => ?_)
+      · refine scalValidX k _ hp.1 (fun hq => ?_)
         have := sb_append (g1 ++ o.text) (jrenderV v ++ (jrenderF rest ++ after)) (by simp [opText_ne]) (hkb hq)
         simpa [List.append_assoc] using this
       · exact opValid o _ (gvalue_head v _ hp.2.1 hvv _)
@@ -737,52 +790,52 @@ theorem gvalidM : ∀ (fs : JFields) (after : Bytes), XPlainF fs → JValidF fs 
   | .consImp g0 k v rest, after, hp, hv => by
       simp only [XPlainF] at hp; simp only [JValidF] at hv
       obtain ⟨hg0, _, _, hkb, hvv, hvr⟩ := hv
-      simp only [dM, TextReader.ValidM, TextReader.ValidV, TextReader.renderM, grenderV v hp.2.1, grenderM rest hp.2.2]
-      exact ⟨⟨gap_of_blank hg0, scalValid k _ hp.1.1 (fun hq => by simpa [List.append_assoc] using sb_of _ (hkb hq))⟩, gvalidV v _ hp.2.1 hvv,
+      simp only [dM, TextReader.ValidMX, TextReader.ValidVX, TextReader.renderM, grenderV v hp.2.1, grenderM rest hp.2.2]
+      exact ⟨⟨gap_of_blank hg0, scalValidX k _ hp.1.1 (fun hq => by simpa [List.append_assoc] using sb_of _ (hkb hq))⟩, gvalidV v _ hp.2.1 hvv,
         gvalidM rest _ hp.2.2 hvr⟩
   | .ghost g gc rest, after, hp, hv => by
       simp only [XPlainF] at hp; simp only [JValidF] at hv
-      simp only [dM, TextReader.ValidM, TextReader.ValidV]
+      simp only [dM, TextReader.ValidMX, TextReader.ValidVX]
       exact ⟨⟨gap_of_blank hv.1, gap_of_blank hv.2.1, trivial⟩, gvalidM rest _ hp hv.2.2⟩
   | .consHdr g0 k g1 o gh hd body rest, after, hp, hv => by
       simp only [XPlainF] at hp; simp only [JValidF] at hv
       obtain ⟨hg0, hg1, hgh, _, hkb, _, _, hsb, _, hvb, hvr⟩ := hv
-      simp only [dM, TextReader.ValidM, TextReader.ValidV, TextReader.renderV, TextReader.renderM, scalText,
+      simp only [dM, TextReader.ValidMX, TextReader.ValidVX, TextReader.renderV, TextReader.renderM, scalText,
         grenderV body hp.2.2.2.1, grenderM rest hp.2.2.2.2, opText_trOp, List.append_assoc]
       refine ⟨gap_of_blank hg0, gap_of_blank hg1, ?_, ?_, ⟨gap_of_blank hgh, ?_⟩, ?_, ?_⟩
-      · refine scalValid k _ hp.1 (fun hq => ?_)
+      · refine scalValidX k _ hp.1 (fun hq => ?_)
         have := sb_append (g1 ++ o.text) (gh ++ (hd.text ++ (jrenderV body ++ (jrenderF rest ++ after))))
           (by simp [opText_ne]) (hkb hq)
         simpa [List.append_assoc] using this
       · exact opValid o _ (gapped_head gh hgh _ (scal_head hd hp.2.2.1 _))
-      · exact scalValid hd _ hp.2.2.1 (fun _ => sb_of _ hsb)
+      · exact (scalValid hd _ hp.2.2.1 (fun _ => sb_of _ hsb)).toX
       · exact gvalidV body _ hp.2.2.2.1 hvb
       · exact gvalidM rest _ hp.2.2.2.2 hvr
   | .paramVal .., _, hp, _ => by simp [XPlainF] at hp
   | .paramObj .., _, hp, _ => by simp [XPlainF] at hp
-theorem gvalidMs : ∀ (vs : JVals) (after : Bytes), XPlainVs vs → JValidVs vs after → TextReader.ValidM (dMs vs) after
-  | .nil, _, _, _ => by simp [dMs, TextReader.ValidM]
+theorem gvalidMs : ∀ (vs : JVals) (after : Bytes), XPlainVs vs → JValidVs vs after → TextReader.ValidMX (dMs vs) after
+  | .nil, _, _, _ => by simp [dMs, TextReader.ValidMX]
   | .cons v rest, after, hp, hv => by
       simp only [XPlainVs] at hp; simp only [JValidVs] at hv
-      simp only [dMs, TextReader.ValidM, grenderMs rest hp.2]
+      simp only [dMs, TextReader.ValidMX, grenderMs rest hp.2]
       exact ⟨gvalidV v _ hp.1 hv.1, gvalidMs rest _ hp.2 hv.2⟩
 end
 
 /-! ### from bytes to value on the stream path, and both paths -/
 
 /-- the slice reader model is faithful on every valid layout of the fragment (C07_slice_faithful through the
-structural map `dM`): it ends cleanly and yields exactly `lexemes (gDoc fs)` -/
+structural map `dM`): it ends cleanly and yields exactly the document's leading ghosts and the tokens of its fields -/
 theorem gsliceLex (fs : JFields) (gt : Bytes) (hgt : Blank gt) (hv : JValidF fs gt)
-    (hb : hasBom (jrenderF fs ++ gt) = false) (hp : XPlainF fs) (hr : XRoot fs) :
+    (hb : hasBom (jrenderF fs ++ gt) = false) (hp : XPlainF fs) :
     (TextReader.sliceTokens (jrenderF fs ++ gt)).out = .end_ ∧
-    (TextReader.sliceTokens (jrenderF fs ++ gt)).toks.map toRTok = lexemes (gDoc fs) := by
+    (TextReader.sliceTokens (jrenderF fs ++ gt)).toks.map toRTok = ghostToks (gLead fs) ++ lexFields (gFields fs) := by
   have hrm := grenderM fs hp
-  obtain ⟨h1, h2, _⟩ := TextReader.slice_faithful (dM fs) gt false (gvalidM fs gt hp hv)
+  obtain ⟨h1, h2, _⟩ := Jomini.Props.C07.C07_slice_faithful_x (dM fs) gt false (gvalidM fs gt hp hv)
     (.gap gt (gap_of_blank hgt)) (fun _ => by rw [hrm]; exact no_bom_clash _ hb)
   simp only [TextReader.bomBytes, Bool.false_eq_true, ↓reduceIte, List.nil_append, hrm] at h1 h2
   refine ⟨h2, ?_⟩
   rw [h1, List.map_map]
-  exact gitemsDoc fs hp hr
+  exact gitemsM fs hp
 
 /-- C02 end to end, stream path, full syntax: for every document of the fragment `XPlainF` -- reader-safe scalars,
 keys quoted or not, every operator, the `=` left out before a `{`, ghost `{}` in key position (in front of a
@@ -790,41 +843,41 @@ key, behind a value, at the start of a nested object), arrays, empty containers,
 valid layout of it, both encodings and every fitting root type, the tokens the slice reader model produces
 from the BYTES deserialize to the value of the layout-free document `gDoc fs`. -/
 theorem C02_stream_end_to_end_full (enc : TextDe.Enc) (ty : TextDe.Ty) (fs : JFields) (gt : Bytes)
-    (hgt : Blank gt) (hv : JValidF fs gt) (hb : hasBom (jrenderF fs ++ gt) = false) (hp : XPlainF fs) (hr : XRoot fs)
+    (hgt : Blank gt) (hv : JValidF fs gt) (hb : hasBom (jrenderF fs ++ gt) = false) (hp : XPlainF fs)
     (hroot : Ty.isRoot ty = true) (hfit : Fits enc ty (.obj (gDoc fs))) :
     (TextReader.sliceTokens (jrenderF fs ++ gt)).out = .end_ ∧
     TextDe.deStream enc ty ((TextReader.sliceTokens (jrenderF fs ++ gt)).toks.map toRTok) = valueOf enc ty (gDoc fs) := by
-  obtain ⟨h1, h2⟩ := gsliceLex fs gt hgt hv hb hp hr
-  exact ⟨h1, by rw [h2]; exact TextDe.deStream_eq_valueOf enc ty (gDoc fs) hroot (gwfDoc fs gt hp hv) hfit⟩
+  obtain ⟨h1, h2⟩ := gsliceLex fs gt hgt hv hb hp
+  exact ⟨h1, by rw [h2]; exact deStream_gdoc enc ty fs hroot (gwfDoc fs gt hp hv) hfit⟩
 
 /-- C02 end to end, both paths from the same BYTES, full syntax: tape path = stream path = the document's
 value, for every valid layout of every document of `XPlainF`. -/
 theorem C02_paths_end_to_end_full (enc : TextDe.Enc) (ty : TextDe.Ty) (fs : JFields) (gt : Bytes)
-    (hgt : Blank gt) (hv : JValidF fs gt) (hb : hasBom (jrenderF fs ++ gt) = false) (hp : XPlainF fs) (hr : XRoot fs)
+    (hgt : Blank gt) (hv : JValidF fs gt) (hb : hasBom (jrenderF fs ++ gt) = false) (hp : XPlainF fs)
     (hroot : Ty.isRoot ty = true) (hfit : FitsT enc false ty (.obj (gDoc fs))) :
     ∃ T b, TextTape.parse (jrenderF fs ++ gt) = .ok T b ∧
       TextDe.deTape enc ty (toTextDeTape T) = valueOf enc ty (gDoc fs) ∧
       TextDe.deStream enc ty ((TextReader.sliceTokens (jrenderF fs ++ gt)).toks.map toRTok) = valueOf enc ty (gDoc fs) := by
   obtain ⟨T, b, h1, h2⟩ := C02_tape_end_to_end_full enc ty fs gt hgt hv hb hp hroot hfit
-  exact ⟨T, b, h1, h2, (C02_stream_end_to_end_full enc ty fs gt hgt hv hb hp hr hroot (TextDe.fitsT_fits enc hfit)).2⟩
+  exact ⟨T, b, h1, h2, (C02_stream_end_to_end_full enc ty fs gt hgt hv hb hp hroot (TextDe.fitsT_fits enc hfit)).2⟩
 
 /-- … for EVERY root target type (errors included): the same result on both paths, namely `valueOf`, unless the
 (type, document) pair contains one of the combinations of `Bad` -/
 theorem C02_error_agreement_end_to_end_full (enc : TextDe.Enc) (ty : TextDe.Ty) (fs : JFields) (gt : Bytes)
-    (hgt : Blank gt) (hv : JValidF fs gt) (hb : hasBom (jrenderF fs ++ gt) = false) (hp : XPlainF fs) (hr : XRoot fs)
+    (hgt : Blank gt) (hv : JValidF fs gt) (hb : hasBom (jrenderF fs ++ gt) = false) (hp : XPlainF fs)
     (hroot : Ty.isRoot ty = true) :
     (∃ T b, TextTape.parse (jrenderF fs ++ gt) = .ok T b ∧
       TextDe.deTape enc ty (toTextDeTape T) = valueOf enc ty (gDoc fs) ∧
       TextDe.deStream enc ty ((TextReader.sliceTokens (jrenderF fs ++ gt)).toks.map toRTok) = valueOf enc ty (gDoc fs)) ∨
     Bad enc false ty (.obj (gDoc fs)) := by
   rcases TextDe.fitsT_or_bad enc (ty.height + 1) ty false (.obj (gDoc fs)) (Nat.lt_succ_self _) with h | h
-  · exact Or.inl (C02_paths_end_to_end_full enc ty fs gt hgt hv hb hp hr hroot h)
+  · exact Or.inl (C02_paths_end_to_end_full enc ty fs gt hgt hv hb hp hroot h)
   · exact Or.inr h
 
 /-- … the streaming reader, for every fault-free read schedule and every buffer capacity that fits -/
 theorem C02_stream_end_to_end_scheduled_full (enc : TextDe.Enc) (ty : TextDe.Ty) (fs : JFields) (gt : Bytes)
     (cap : Nat) (sched : List TextReader.Step)
-    (hgt : Blank gt) (hv : JValidF fs gt) (hb : hasBom (jrenderF fs ++ gt) = false) (hp : XPlainF fs) (hr : XRoot fs)
+    (hgt : Blank gt) (hv : JValidF fs gt) (hb : hasBom (jrenderF fs ++ gt) = false) (hp : XPlainF fs)
     (hw : TextReader.WfSched sched) (hnf : TextReader.NoFaults sched)
     (hcap : TextReader.Spec.need (jrenderF fs ++ gt) ≤ cap)
     (hroot : Ty.isRoot ty = true) (hfit : Fits enc ty (.obj (gDoc fs))) :
@@ -832,7 +885,7 @@ theorem C02_stream_end_to_end_scheduled_full (enc : TextDe.Enc) (ty : TextDe.Ty)
     TextDe.deStream enc ty ((TextReader.streamTokens cap sched (jrenderF fs ++ gt)).toks.map toRTok)
       = valueOf enc ty (gDoc fs) := by
   obtain ⟨e1, e2, _⟩ := Jomini.Props.C07.C07_stream_eq_slice_fits (jrenderF fs ++ gt) cap sched hw hnf hcap
-  obtain ⟨s1, s2⟩ := C02_stream_end_to_end_full enc ty fs gt hgt hv hb hp hr hroot hfit
+  obtain ⟨s1, s2⟩ := C02_stream_end_to_end_full enc ty fs gt hgt hv hb hp hroot hfit
   exact ⟨e2.trans s1, by rw [e1]; exact s2⟩
 
 /-- … stated on texttape's FULL document type (`C01_faithful_full`, Spec/TextDocFull.lean): `JFields.toF` embeds the
@@ -841,7 +894,7 @@ the image of `toF` are mixed containers / arrays that turn mixed and parameter b
 C02, where the two paths differ (`C02_mixed_container_paths_differ`, `C02_parameter_block_paths_differ`) -- and
 nested objects whose FIRST field is a header field, which stay out. -/
 theorem C02_paths_end_to_end_fdoc (enc : TextDe.Enc) (ty : TextDe.Ty) (fs : JFields) (gt : Bytes)
-    (hgt : Blank gt) (hv : JValidF fs gt) (hb : hasBom (frenderF fs.toF ++ gt) = false) (hp : XPlainF fs) (hr : XRoot fs)
+    (hgt : Blank gt) (hv : JValidF fs gt) (hb : hasBom (frenderF fs.toF ++ gt) = false) (hp : XPlainF fs)
     (hroot : Ty.isRoot ty = true) (hfit : FitsT enc false ty (.obj (gDoc fs))) :
     FValidF fs.toF gt ∧
     ∃ T, TextTape.parse (frenderF fs.toF ++ gt) = .ok T false ∧ T.map Tok.erase = dtapeF fs.toF 0 ∧
@@ -850,17 +903,17 @@ theorem C02_paths_end_to_end_fdoc (enc : TextDe.Enc) (ty : TextDe.Ty) (fs : JFie
   have hfv := toF_validF fs gt hv
   obtain ⟨T, hT, hE⟩ := Jomini.Props.C01.C01_faithful_full fs.toF gt hgt hfv hb
   rw [toF_renderF] at hb hT ⊢
-  obtain ⟨T', b, h1, h2, h3⟩ := C02_paths_end_to_end_full enc ty fs gt hgt hv hb hp hr hroot hfit
+  obtain ⟨T', b, h1, h2, h3⟩ := C02_paths_end_to_end_full enc ty fs gt hgt hv hb hp hroot hfit
   rw [hT] at h1
   cases h1
   exact ⟨hfv, T, hT, hE, h2, h3⟩
 
 /-! ### the hypotheses are satisfiable -/
 
-/-- `"a"=1 {} b{ c<2 } d={ {} e=3 {} }` + newline: a quoted key, a ghost `{}` between fields, the `=` left out
+/-- `"a"=@x {} b{ c<2 } d={ {} e=3 {} }` + newline: a quoted key, a variable as a value, a ghost `{}` between fields, the `=` left out
 before `{`, an operator, a ghost at the start of a nested object and one behind its last value -/
 def exampleFull : JFields :=
-  .cons [] ⟨true, [97]⟩ [] .eq (.scal [] ⟨false, [49]⟩)
+  .cons [] ⟨true, [97]⟩ [] .eq (.scal [] ⟨false, [64, 120]⟩)
    (.ghost [32] []
     (.consImp [32] ⟨false, [98]⟩ (.obj [] [32] ⟨false, [99]⟩ [] .lt (.scal [] ⟨false, [50]⟩) .nil [32])
      (.cons [32] ⟨false, [100]⟩ [] .eq
@@ -883,8 +936,9 @@ theorem exampleFull_valid : JValidF exampleFull [10] := by
     | (intro _; exact hb _ _ (by decide +kernel))
     | exact u _ (by decide +kernel) (by decide +kernel) (by decide) (by decide)
     | exact .inl (by unfold Scal.Valid; simp only [↓reduceIte]; decide +kernel)
+    | exact .inr (.inl ⟨rfl, [120], rfl, by simp, by decide +kernel⟩)
 
-theorem exampleFull_plain : XPlainF exampleFull ∧ XRoot exampleFull := by
+theorem exampleFull_plain : XPlainF exampleFull := by
   have u : ∀ c : UInt8, TextTape.isBoundary c = false → TextTape.isBlank c = false → c ≠ 34 → c ≠ 64 → c ≠ 63 →
       SafeScal (Scal.mk false [c]) := by
     intro c h1 h2 h3 h4 h5
@@ -893,16 +947,16 @@ theorem exampleFull_plain : XPlainF exampleFull ∧ XRoot exampleFull := by
     simp only [List.cons.injEq] at hc
     rw [← hc.1]; exact h5
   have hq : SafeScal (Scal.mk true [97]) := ⟨by unfold Scal.Valid; simp only [↓reduceIte]; decide +kernel, by simp⟩
-  have h49 := u 49 (by decide +kernel) (by decide +kernel) (by decide) (by decide) (by decide)
+  have hvar : SafeScalX (Scal.mk false [64, 120]) :=
+    ⟨.inr (.inl ⟨rfl, [120], rfl, by simp, by decide +kernel⟩), fun _ c r h => by simp at h; rw [← h.1]; decide⟩
   have h50 := u 50 (by decide +kernel) (by decide +kernel) (by decide) (by decide) (by decide)
   have h51 := u 51 (by decide +kernel) (by decide +kernel) (by decide) (by decide) (by decide)
   have h98 := u 98 (by decide +kernel) (by decide +kernel) (by decide) (by decide) (by decide)
   have h99 := u 99 (by decide +kernel) (by decide +kernel) (by decide) (by decide) (by decide)
   have h100 := u 100 (by decide +kernel) (by decide +kernel) (by decide) (by decide) (by decide)
   have h101 := u 101 (by decide +kernel) (by decide +kernel) (by decide) (by decide) (by decide)
-  refine ⟨?_, Or.inl (by simp [exampleFull, gFields])⟩
-  simp only [exampleFull, XPlainF, XPlainV, XPlainVs, XObj, JVal.isBraced, hq, h49, h50, h51, h98, h99, h100, h101,
-    and_true, true_and, and_self]
+  simp only [exampleFull, XPlainF, XPlainV, XPlainVs, XObj, JVal.isBraced, hq.toX, hvar, h50.toX, h51.toX, h98.toX, h99.toX,
+    h100.toX, h101.toX, and_true, true_and, and_self]
 
 
 example :
@@ -911,11 +965,24 @@ example :
       TextDe.deStream .utf8 (.map .ign) ((TextReader.sliceTokens (jrenderF exampleFull ++ [10])).toks.map toRTok)
         = valueOf .utf8 (.map .ign) (gDoc exampleFull) ∧
       valueOf .utf8 (.map .ign) (gDoc exampleFull) = .ok (.map [(.str [97], .ign), (.str [98], .ign), (.str [100], .ign)]) ∧
-      valueOf .utf8 (.st [([98], .map (.prop .i64)), ([100], .st [([101], .u8)])]) (gDoc exampleFull)
-        = .ok (.st [([98], .map [(.str [99], .prop .lt (.int 2))]), ([100], .st [([101], .uint 3)])]) := by
+      valueOf .utf8 (.st [([97], .str), ([98], .map (.prop .i64)), ([100], .st [([101], .u8)])]) (gDoc exampleFull)
+        = .ok (.st [([97], .str [64, 120]), ([98], .map [(.str [99], .prop .lt (.int 2))]), ([100], .st [([101], .uint 3)])]) := by
   obtain ⟨T, b, h1, h2, h3⟩ := C02_paths_end_to_end_full .utf8 (.map .ign) exampleFull [10]
-    (.ws 10 [] (by decide +kernel) .nil) exampleFull_valid (by decide +kernel) exampleFull_plain.1 exampleFull_plain.2 rfl
+    (.ws 10 [] (by decide +kernel) .nil) exampleFull_valid (by decide +kernel) exampleFull_plain rfl
     (.map (fun _ _ _ _ => .ign))
   exact ⟨T, b, h1, h2, h3, by rfl, by rfl⟩
+
+/-- a document that consists of ghost `{}` only (`{} {}` + newline) is inside the theorems: both paths return the value
+of the empty document -/
+example :
+    ∃ T b, TextTape.parse ([123, 125, 32, 123, 125] ++ [10]) = .ok T b ∧
+      TextDe.deTape .utf8 (.st [([97], .opt .str)]) (toTextDeTape T) = .ok (.st [([97], .none)]) ∧
+      TextDe.deStream .utf8 (.st [([97], .opt .str)]) ((TextReader.sliceTokens ([123, 125, 32, 123, 125] ++ [10])).toks.map toRTok)
+        = .ok (.st [([97], .none)]) := by
+  have sp : Blank [32] := .ws 32 [] (by decide +kernel) .nil
+  obtain ⟨T, b, h1, h2, h3⟩ := C02_paths_end_to_end_full .utf8 (.st [([97], .opt .str)]) (.ghost [] [] (.ghost [32] [] .nil)) [10]
+    (.ws 10 [] (by decide +kernel) .nil) (by simp only [JValidF]; exact ⟨.nil, .nil, sp, .nil, trivial⟩) (by decide +kernel)
+    (by simp [XPlainF]) rfl (.st (fun k o v hm => by simp [gDoc, gFields, addLead] at hm))
+  exact ⟨T, b, h1, h2, h3⟩
 
 end Jomini.TextE2E
